@@ -3,6 +3,7 @@ package raftsim
 import (
 	"fmt"
 	"math/rand"
+	"os"
 	"reflect"
 	"sort"
 	"unsafe"
@@ -47,6 +48,8 @@ type flight struct {
 	m    pb.Message
 	blob []byte
 	seq  int
+	// until: a message held back by the network is not deliverable before this step
+	until int
 }
 
 // Sim is one simulated shard.
@@ -62,6 +65,10 @@ type Sim struct {
 	mon      *monitors
 	nextID   uint64 // next replica id for joins
 	nextKey  uint64
+	// lastTransferTarget: target of the most recent leadership transfer request
+	lastTransferTarget uint64
+	// held: messages delayed by the network for hundreds of steps (they re-enter net when due)
+	held     []*flight
 	trace    []string
 	traceOn  bool
 	healing  bool
@@ -145,7 +152,16 @@ func (s *Sim) pick(ids []uint64) *replica {
 }
 
 // send puts a message on the simulated network.
+var traceMsgs = os.Getenv("VERIF_TRACE_MSGS") != ""
+
+func msgStr(m pb.Message) string {
+	return fmt.Sprintf("%s %d->%d t%d li%d lt%d c%d rej%v hint%d/%d ents%d", m.Type, m.From, m.To, m.Term, m.LogIndex, m.LogTerm, m.Commit, m.Reject, m.Hint, m.HintHigh, len(m.Entries))
+}
+
 func (s *Sim) send(from *replica, m pb.Message) {
+	if traceMsgs {
+		s.tr("send %s", msgStr(m))
+	}
 	s.mon.onSend(from, m)
 	f := &flight{m: cloneMsg(m), seq: s.seq}
 	s.seq++
@@ -220,6 +236,9 @@ func (s *Sim) deliverAt(i int, dup bool) {
 		return
 	}
 	m := cloneMsg(f.m)
+	if traceMsgs {
+		s.tr("deliver(dup=%v held=%v) %s", dup, f.until > 0, msgStr(m))
+	}
 	if m.Type == pb.InstallSnapshot {
 		if !m.Snapshot.Witness {
 			// the receiving transport stored the image durably before passing the
@@ -238,6 +257,24 @@ func (s *Sim) deliverAt(i int, dup bool) {
 	}
 	s.mon.onDeliver(dst, m)
 	dst.inbox = append(dst.inbox, m)
+}
+
+// releaseHeld puts the delayed messages that are due (or all of them) back
+// into the network.
+func (s *Sim) releaseHeld(all bool) {
+	if len(s.held) == 0 {
+		return
+	}
+	keep := s.held[:0]
+	for _, f := range s.held {
+		if all || f.until <= s.stepNo {
+			s.net = append(s.net, f)
+			s.mon.count("msgs_released_after_long_delay", 1)
+		} else {
+			keep = append(keep, f)
+		}
+	}
+	s.held = keep
 }
 
 func (s *Sim) guard(r *replica, what string, f func()) {
@@ -307,6 +344,7 @@ func (s *Sim) nextPhase() {
 // Step performs one scheduler action of the fault prefix.
 func (s *Sim) Step() {
 	s.stepNo++
+	s.releaseHeld(false)
 	if s.stepNo >= s.phaseEnd {
 		s.nextPhase()
 	}
@@ -373,6 +411,10 @@ func (s *Sim) Step() {
 	case 2: // apply
 		if r := s.pick(alive); r != nil {
 			s.guard(r, "apply", func() { r.apply() })
+			if r.lastStep {
+				// the step worker iteration that overlaps the self-removal just applied
+				s.guard(r, "step", func() { r.step(cpNone) })
+			}
 		}
 	case 3: // deliver a few messages
 		k := 1 + s.rng.Intn(2*len(s.order)+1)
@@ -387,6 +429,16 @@ func (s *Sim) Step() {
 				i = s.rng.Intn(len(s.net))
 			} else if len(s.net) > 3 {
 				i = s.rng.Intn(3)
+			}
+			if (s.rng.Intn(6*reorder) == 0 || (s.net[i].m.Type == pb.TimeoutNow && s.rng.Intn(3) == 0)) && s.net[i].m.Type != pb.InstallSnapshot {
+				// a long delay: the message arrives after everything sent in the next
+				// hundreds of steps (term changes, membership changes, restarts)
+				f := s.net[i]
+				s.net = append(s.net[:i], s.net[i+1:]...)
+				f.until = s.stepNo + 60 + s.rng.Intn(1200)
+				s.held = append(s.held, f)
+				s.mon.count("msgs_held_back", 1)
+				continue
 			}
 			s.deliverAt(i, false)
 		}
@@ -412,6 +464,7 @@ func (s *Sim) Step() {
 		if r := s.pick(alive); r != nil && !r.cfg.IsWitness {
 			t := s.order[s.rng.Intn(len(s.order))]
 			r.transferTo = t
+			s.lastTransferTarget = t
 			s.mon.count("leader_transfer_requests", 1)
 		}
 	case 10:
@@ -523,6 +576,11 @@ func (s *Sim) actConfigChange(alive []uint64) {
 		cc = pb.ConfigChange{Type: pb.AddNode, ReplicaID: id, Address: members.NonVotings[id]}
 	case kind < 9: // remove someone (possibly invalid)
 		id := s.order[s.rng.Intn(len(s.order))]
+		if s.lastTransferTarget != 0 && s.rng.Intn(3) == 0 {
+			// the target of the latest leadership transfer: its TimeoutNow may still be in flight
+			id = s.lastTransferTarget
+			s.mon.count("config_change_removes_transfer_target", 1)
+		}
 		if len(members.Addresses) <= 2 && s.rng.Intn(4) != 0 {
 			return
 		}
@@ -671,6 +729,7 @@ func (s *Sim) actPartition() {
 func (s *Sim) Heal(rounds int, each func(round int) bool) {
 	s.healing = true
 	s.blocked = map[[2]uint64]bool{}
+	s.releaseHeld(true)
 	reseedElectionRNG(s.opt.Seed ^ s.opt.HealSeed ^ 0x4ea1)
 	mem := s.mon.latestMembership()
 	for _, id := range s.order {
@@ -701,6 +760,9 @@ func (s *Sim) Heal(rounds int, each func(round int) bool) {
 				if r.alive && !r.removed {
 					s.guard(r, "step", func() { r.step(cpNone) })
 					s.guard(r, "apply", func() { r.apply() })
+					if r.lastStep {
+						s.guard(r, "step", func() { r.step(cpNone) })
+					}
 				}
 			}
 			n := len(s.net)
